@@ -168,6 +168,15 @@ def _raise_condition(f, raise_node) -> str:
             else:
                 atoms.append(f"{norm_text(e, f.node, 60)}:{lab}")
             continue
+        if isinstance(e, ast.Attribute) and e.attr in ('xml_elements', '_xml_elements'):
+            # truthiness of the leaf's element list: at least one / none
+            key = norm_text(ast.Call(func=ast.Name(id='len', ctx=ast.Load()), args=[e], keywords=[]), f.node, 60)
+            lo, hi, holes = lens.setdefault(key, [0, None, set()])
+            if lab == 'T':
+                lens[key][0] = max(lo, 1)
+            else:
+                lens[key][1] = 0 if hi is None else min(hi, 0)
+            continue
         atoms.append(f"{norm_text(e, f.node, 60)}:{lab}")
     for key, (lo, hi, holes) in lens.items():
         while lo in holes:
